@@ -76,6 +76,35 @@ func runC01(c *Ctx) {
 		}
 	}
 
+	// the epoch gate: at every epoch boundary the updates are queued and then sent; never in between
+	if f := c.Fn("pk.Keeper.EndBlockVSU"); f != nil {
+		boundary := AEq("BlocksUntilNextEpoch() == 0", PCall("pk.Keeper.BlocksUntilNextEpoch", -1, nil), PConstInt(0))
+		qv := c.one(f, false, "pk.Keeper.QueueVSCPackets")
+		sv := c.one(f, false, "pk.Keeper.SendVSCPackets")
+		if qv != nil && sv != nil {
+			c.GuardedBy(qv, fk(f, "queue-only-at-epoch-boundary"), boundary)
+			c.Check(mustPassBefore(sv, qv), fk(f, "queue-before-send"), sv, "SendVSCPackets runs after QueueVSCPackets")
+			for _, r := range successReturns(f) {
+				c.MustPassWhen(r, []ssa.Instruction{qv}, fk(f, "boundary-queues"), T(boundary))
+				c.MustPassWhen(r, []ssa.Instruction{sv}, fk(f, "boundary-sends"), T(boundary))
+			}
+		}
+	}
+	if f := c.Fn("pk.Keeper.BlocksUntilNextEpoch"); f != nil {
+		rem := PBin(token.REM, PCall("sdk.Context.BlockHeight", -1, nil), PCall("pk.Keeper.GetBlocksPerEpoch", -1, nil))
+		atStart := AEq("BlockHeight % BlocksPerEpoch == 0", rem, PConstInt(0))
+		n0 := 0
+		for _, r := range Returns(f) {
+			if k, isC := constInt(r.Results[0]); isC && k == 0 {
+				n0++
+				c.GuardedBy(r, fk(f, "zero-only-at-epoch-start"), atStart)
+			} else {
+				c.UnreachableWhen(r, fk(f, "epoch-start-returns-zero"), T(atStart))
+			}
+		}
+		c.Check(n0 == 1, fk(f, "zero-only-at-epoch-start", "census"), f, "one return of the constant 0")
+	}
+
 	// ---- R2 ------------------------------------------------------------------------------------
 	c.Rule("R2", "FIFO queue: AppendPendingVSCPackets stores append(stored packets of the consumer, new packets...) under the same consumer", 2)
 	if f := c.Fn("pk.Keeper.AppendPendingVSCPackets"); f != nil {
